@@ -426,6 +426,12 @@ def run_concurrent(case, res):
             seen.append((task.uid, state))
     tm.register_callback(cb)
 
+    # a yield in front of the manager's task lock: what either thread looked
+    # at before it takes the lock may be stale by then
+    from ..core import YieldLock
+    tm._tasks_lock = YieldLock(tm._tasks_lock, case['seed'], '_tasks_lock',
+                               sleeps=[0, 0, 0.0003, 0.001, 0.002])
+
     orig   = m_task.Task._update
     sleeps = [0, 0, 0.0002, 0.0005, 0.001]
     def slow(self, d, reconnect=False):
